@@ -69,7 +69,15 @@ type Exec struct {
 	boxes         map[int]*Value // box identity term id -> boxed (non-pointer) value
 	allocBases    map[int]bool   // term ids of allocation frontiers
 	discoverFresh map[int]bool   // refs allocated during the running write-set discovery
+	ownedForeign  map[int]*ownedObj // objects of dependency types allocated by the code under verification
+	sharedRefs    map[int]bool      // ... whose reference was handed out (interface / stored): no longer private
+	curClause     string            // clause being evaluated (for error messages)
 	globalFacts   []*Term        // definitional facts about fresh constants (hold on every path)
+}
+
+type ownedObj struct {
+	ref *Term
+	t   types.Type
 }
 
 type writeSet struct {
@@ -646,6 +654,20 @@ func (ex *Exec) havocPtrIndexes(p *PtrInfo) *PtrInfo {
 	return np
 }
 
+// rangeIndexAlloc finds the hidden index cell of a range-over-slice/array/string loop.
+func rangeIndexAlloc(li *loopInfo) *ssa.Alloc {
+	for _, in := range li.header.Instrs {
+		if bo, ok := in.(*ssa.BinOp); ok && bo.Op == token.ADD {
+			if ld, ok := bo.X.(*ssa.UnOp); ok {
+				if a, ok := ld.X.(*ssa.Alloc); ok && a.Comment == "rangeindex" {
+					return a
+				}
+			}
+		}
+	}
+	return nil
+}
+
 func (ex *Exec) enterLoop(fr *Frame, li *loopInfo, st *State) *State {
 	lc := ex.loopContract(fr, li)
 	loopName := fmt.Sprintf("loop%d", li.ordinal)
@@ -654,6 +676,8 @@ func (ex *Exec) enterLoop(fr *Frame, li *loopInfo, st *State) *State {
 		for _, inv := range lc.Invariants {
 			env := ex.specEnv(fr, st, li.minPos)
 			env.loopEntry = st
+			env.loopIdx = rangeIndexAlloc(li)
+			ex.curClause = loopName + " invariant " + inv.Label
 			c := ex.evalSpecBool(env, inv.Expr)
 			ex.obligeSpec(st, "inv-entry", loopName+":"+inv.Label, c, inv, nil)
 		}
@@ -671,6 +695,7 @@ func (ex *Exec) enterLoop(fr *Frame, li *loopInfo, st *State) *State {
 		for _, inv := range lc.Invariants {
 			env := ex.specEnv(fr, hst, li.minPos)
 			env.loopEntry = entry
+			env.loopIdx = rangeIndexAlloc(li)
 			c := ex.evalSpecBool(env, inv.Expr)
 			ex.assume(hst, c)
 		}
@@ -699,6 +724,7 @@ func (ex *Exec) closeLoop(fr *Frame, li *loopInfo, st *State) {
 		if ctx != nil {
 			env.loopEntry = ctx.entryState
 		}
+		env.loopIdx = rangeIndexAlloc(li)
 		c := ex.evalSpecBool(env, inv.Expr)
 		ex.obligeSpec(st, "inv-step", loopName+":"+inv.Label, c, inv, nil)
 	}
